@@ -91,7 +91,16 @@ func (p *polling) onPollRequest(ctx *types.HttpContext) {
 	polling_log.Debug("setting request")
 
 	onClose := events.Listener(func(...any) {
+		// the request may be answered (by send, under the same lock) while this event is
+		// on its way: the transport, and the poll that may have followed, are then not
+		// concerned by it
+		p.mu.Lock()
+		if p.req.Load() != ctx {
+			p.mu.Unlock()
+			return
+		}
 		p.SetWritable(false)
+		p.mu.Unlock()
 		p.OnError("poll connection closed prematurely", nil)
 	})
 
